@@ -524,7 +524,7 @@ def fam_lifecycle(rng):
             ctl.append(["accept-thread", rng.choice([50 + r, 60 + r, rid])])
             if rng.random() < 0.5:
                 ctl.append(["sleep", rng.choice([0.0, 0.01, 0.03])])
-        end = rng.choice(["shutdown", "shutdown", "sigint", "failure", "shutdown-thread-payload", "shutdown-adopters"])
+        end = rng.choice(["shutdown", "shutdown", "sigint", "failure", "shutdown-thread-payload", "shutdown-adopters", "shutdown-twice"])
         ctl.append(["sleep", rng.choice([0.0, 0.01, 0.03, 0.08])])
         if end == "shutdown-adopters":
             # shutdown while other threads keep adopting payloads of every flavour, with a trio
@@ -549,6 +549,9 @@ def fam_lifecycle(rng):
                 ctl.append(["threads", [[["shutdown", rid]], [["sleep", rng.choice([0.0, 0.002, 0.005, 0.01])], ["accept-thread", rid]]]])
             else:
                 ctl.append(["shutdown", rid])
+        elif end == "shutdown-twice":
+            # two or three threads ask for the shutdown at (nearly) the same moment
+            ctl.append(["threads", [[["sleep", rng.choice([0.0, 0.0, 0.005, 0.03])], ["shutdown", rid]] for _ in range(rng.choice([2, 2, 3]))]])
         elif end == "sigint":
             ctl.append(["sigint"])
         elif end == "failure":
@@ -577,8 +580,19 @@ def fam_lifecycle(rng):
         if rng.random() < 0.4:
             # shutdown() on a runner that has already ended, from this and from another thread
             after = rng.choice([[["shutdown", rid]], [["shutdown", rid], ["threads", [[["shutdown", rid]]]]], [["threads", [[["shutdown", rid]], [["shutdown", rid]]]]]])
+        if end == "failure" and r < nruns - 1 and rng.random() < 0.6:
+            # a failing coroutine payload handed to the runner whose run has just ended by a failure: it stays in
+            # that runner's own queue and is nobody else's business - the next runner starts clean
+            poison = {"pid": pid, "fl": rng.choice(["aio", "trio"]), "script": [["end", {"kind": "exc"}]], "role": "poison", "mode": "after-end",
+                      "out": {"kind": "exc"}}
+            pid += 1
+            payloads.append(poison)
+            after = after + [["adopt", poison["pid"], rid]]
         runs.append({"rid": rid, "control": ctl, "end": end, "join": 4, "after": after})
-    if any(loop_killer(p) for p in payloads):
+    # (overlapping shutdowns end the event loop while one of the callers is still re-cancelling the asyncio
+    # payloads: like a loop killer, that leaves a payload which suppresses its cancellation with asyncio.run's
+    # one-shot cancellation only)
+    if any(loop_killer(p) for p in payloads) or any(r["end"] == "shutdown-twice" for r in runs):
         for p in payloads:
             p.pop("swallow", None)
     return {"family": "lifecycle", "payloads": payloads, "runs": runs, "watchdog": 25, "accept_delay": accept_delay, "slow_running": slow_set}
